@@ -7,11 +7,13 @@ import (
 	"sort"
 	"strings"
 	"testing"
+	"time"
 
 	"github.com/bitcoin-sv/block-headers-service/repository"
 	"github.com/bitcoin-sv/block-headers-service/verifharness/hist"
 	"github.com/bitcoin-sv/block-headers-service/verifharness/interpose"
 	"github.com/bitcoin-sv/block-headers-service/verifharness/model"
+	"github.com/bitcoin-sv/block-headers-service/verifharness/simnet"
 	"github.com/bitcoin-sv/block-headers-service/verifharness/stack"
 	"github.com/bitcoin-sv/block-headers-service/verifharness/stats"
 	"pgregory.net/rapid"
@@ -344,3 +346,108 @@ func TestC05(t *testing.T) {
 }
 
 func TestC05Regress(t *testing.T) { propC05.Regress(t) }
+
+// ---- engine level: a storage failure while a headers message is being processed -----------------------------
+
+// C05EnginePlan: one honest node, the k-th repository write fails while the real engine ingests.
+type C05EnginePlan struct {
+	Engine string `json:"engine"` // legacy | exp
+	Len    int    `json:"len"`
+	Cap    int    `json:"cap"`
+	FailAt int    `json:"failAt"` // 1-based write index that fails
+	Pver   uint32 `json:"pver"`
+}
+
+func runC05Engine(p *C05EnginePlan) (*stats.Case, error) {
+	var firstErr error
+	for attempt := 0; attempt < 3; attempt++ {
+		c, err := runC05EngineOnce(p, attempt > 0)
+		if err == nil {
+			return c, nil
+		}
+		if strings.HasPrefix(err.Error(), "infra:") || !strings.Contains(err.Error(), "did not converge") {
+			return nil, err
+		}
+		if firstErr == nil {
+			firstErr = err
+		}
+	}
+	return nil, fmt.Errorf("%w (failed 3 of 3 attempts)", firstErr)
+}
+
+func runC05EngineOnce(p *C05EnginePlan, long bool) (*stats.Case, error) {
+	wait := 10 * time.Second
+	if long {
+		wait = 25 * time.Second
+	}
+	cp := p.Len / 3
+	if cp < 1 {
+		cp = 1
+	}
+	plan := &C06Plan{Engine: p.Engine, HonestLen: p.Len, Checkpoints: []int{cp}, Initial: "genesis"}
+	nd := C06Node{Branch: -1}
+	nd.Spec.Pver, nd.Spec.Cap = p.Pver, p.Cap
+	plan.Nodes = []C06Node{nd}
+	var ip *interpose.Headers
+	sc, err := buildScenario(plan, stack.Options{WrapHeaders: func(h repository.Headers) repository.Headers {
+		ip = interpose.Wrap(h)
+		ip.FailAt = p.FailAt
+		return ip
+	}})
+	if sc != nil {
+		defer sc.close()
+	}
+	if err != nil {
+		return nil, err
+	}
+	target := sc.honest
+	tipIs := func() bool { return sc.tipHash() == target[len(target)-1].Hash.String() }
+	// let the sync run into the failure (or finish, if the failing index is never reached)
+	simnet.WaitQuiescent(sc.nodes, func() bool { return tipIs() || ip.Failed }, 150*time.Millisecond, wait)
+	time.Sleep(150 * time.Millisecond)
+	failed := ip.Failed
+	// redelivery: the peer announces a new block; the service asks again from its tip and is served the same headers
+	for round := 0; round < 3 && !tipIs(); round++ {
+		ext := sc.u.Extend(target, 1, 0, 0x1d00ffff)
+		sc.nodes[0].MineWhenReady(ext[len(target):], true, 5*time.Second)
+		target = ext
+		simnet.WaitQuiescent(sc.nodes, tipIs, 150*time.Millisecond, wait/2)
+	}
+	rows, _ := sc.s.Headers()
+	orphans := 0
+	for _, r := range rows {
+		if r.State == model.Orphan {
+			orphans++
+		}
+	}
+	if orphans > 0 {
+		return nil, fmt.Errorf("after a failed store (write %d) the engine stored %d successors of the failed header as ORPHAN: redelivery can never extend the chain past it (tip height %d of %d)", p.FailAt, orphans, sc.s.Services.Headers.GetTipHeight(), len(target))
+	}
+	if !tipIs() {
+		return nil, fmt.Errorf("after a failed store (write %d, reached=%v) and redelivery the service did not converge: tip height %d of %d", p.FailAt, failed, sc.s.Services.Headers.GetTipHeight(), len(target))
+	}
+	if err := checkStructure(rows); err != nil {
+		return nil, err
+	}
+	cl := map[string]int64{"engine_fault_scenarios": 1, "engine_" + p.Engine: 1, "failure_reached": b2i(failed)}
+	return &stats.Case{Sig: stats.Sig(fmt.Sprintf("%+v", *p)), Nontrivial: failed, Classes: cl, Sample: p}, nil
+}
+
+var propC05Engine = Prop[*C05EnginePlan]{
+	ID:   "C05",
+	Name: "TestC05Engine",
+	Gen: func(t *rapid.T) *C05EnginePlan {
+		p := &C05EnginePlan{Engine: rapid.SampledFrom([]string{"legacy", "exp"}).Draw(t, "engine"), Len: rapid.IntRange(8, 60).Draw(t, "len"),
+			Cap: rapid.SampledFrom([]int{4, 7, 20, 2000}).Draw(t, "cap"), Pver: rapid.SampledFrom([]uint32{70015, 70011}).Draw(t, "pver")}
+		p.FailAt = rapid.IntRange(1, p.Len).Draw(t, "failat")
+		return p
+	},
+	Run: runC05Engine,
+}
+
+func TestC05Engine(t *testing.T) {
+	if propC05Engine.replayEnv(t) {
+		return
+	}
+	propC05Engine.Check(t)
+}
